@@ -84,7 +84,8 @@ def _execute(spec, binary, tier, seed, replay_ops=None, scale=None):
                                                 timeout=to, prefix=r.get("prefix", ()), cwd=tmp)
             except Exception as e:  # timeout
                 errors.append("%s: harness did not finish: %s" % (name, e))
-                continue
+                # a harness that hangs is reported once; the remaining runs would only repeat the wait
+                break
             t = core.Trace()
             t.name = name
             t.feed(out)
@@ -193,7 +194,8 @@ def run_check(prop, tier, seed, replay=None):
     n_known = sum(1 for (s, d, n) in preds if s in known)
 
     widened = False
-    if not new and problems and binary and build_ok and not replay:
+    hung = any("harness did not finish" in e for e in errors)
+    if not new and problems and binary and build_ok and not replay and not hung:
         # tie or obligation broken but no failing input yet: widen the search on the implementation
         widened = True
         try:
